@@ -195,7 +195,7 @@ Section Props.
       rewrite H; [reflexivity|reflexivity|lens; lia].
     - change (apply_chunks L (ctx_chunks n 1 1 ((g, E) :: r) gt))
         with (apply_from L (ctx_chunks n 1 1 ((g, E) :: r) gt) [] (1 + Z.of_nat 0)).
-      rewrite (apply_ctx_fold L n gt r g E [] 0 [] 1 1); [rewrite HR; reflexivity|exact HL|reflexivity| |exact Hgf].
+      rewrite (apply_ctx_fold L n gt r g E [] 0 [] 1 1); [rewrite HR; cbn [segs_right skipn]; lapp|rewrite HL; cbn [segs_left]; lapp|reflexivity| |exact Hgf].
       pose proof (ctx_k_le n g). lia.
   Qed.
 
